@@ -168,7 +168,8 @@ def pure_job(family, fn, variant, symbolic=True):
         x2 = box_point(ex, P, 'y', None if (symbolic and family != 'gkls') else (0.7713, 0.2239, 0.9017, 0.4463, 0.0871))
         ref = None
         if not symbolic:
-            ref = clean_reference(mods, family, [(fn, x), (sibling_id(family, fn), x), (sibling_id(family, fn), x2)])
+            xo_ = [float(v) for v in P.knownOptimum[0].point.floatVariables]
+            ref = clean_reference(mods, family, [(fn, x), (sibling_id(family, fn), x), (sibling_id(family, fn), x2), (fn, xo_), (fn, x2)])
         s0, t0 = snap(P), tables(mods)
         buf = None
         if variant == 'reused-buffer':
@@ -182,8 +183,11 @@ def pure_job(family, fn, variant, symbolic=True):
         call(mods, O, box_point(ex, O, 'o', (0.41,)))
         if variant in ('at-optimum', 'reused-buffer'):
             xo = [float(v) for v in P.knownOptimum[0].point.floatVariables]
-            call(mods, P, x2, buf)              # somewhere else first, then exactly at the declared optimum, then back to the repeated point
-            call(mods, P, xo, buf)              # an evaluation exactly at the declared optimum immediately before the repeated point
+            v_x2 = call(mods, P, x2, buf)[1].value              # somewhere else first, then exactly at the declared optimum, then back to the repeated point
+            v_xo = call(mods, P, xo, buf)[1].value
+            if ref is not None:
+                ex.prove(float(v_xo) == ref[3] and float(v_x2) == ref[4],
+                         'C15 HISTORY: the value does not depend on which other instances were evaluated before (clean-process reference)', d)              # an evaluation exactly at the declared optimum immediately before the repeated point
         if variant in ('full', 'partial'):
             call(mods, P, x2)
         if variant == 'partial' and len(x) > 1:
@@ -258,11 +262,14 @@ def state(p):
     try: return pickle.dumps(p.__dict__)
     except Exception: return repr(sorted(p.__dict__))
 s0 = state(P)
+xo = [float(v) for v in P.knownOptimum[0].point.floatVariables]
+REF = mk(family, fn); ref_xo = float(REF.Calculate(Point(np.array(xo), []), FunctionValue()).value); ref_y = float(REF.Calculate(Point(np.array(y), []), FunctionValue()).value)
 r1, h1 = call(P, x); v1 = h1.value
 if r1 is not h1: bad.append('C15 HOLDER: Calculate did not return the supplied holder')
 call(S, y); call(O, [float(O.lowerBoundOfFloatVariables[0]) + 0.41 * (float(O.upperBoundOfFloatVariables[0]) - float(O.lowerBoundOfFloatVariables[0]))])
 if variant in ('at-optimum', 'reused-buffer'):
-    call(P, y); call(P, [float(v) for v in P.knownOptimum[0].point.floatVariables])
+    vy = float(call(P, y)[1].value); vo = float(call(P, xo)[1].value)
+    if vy != ref_y or vo != ref_xo: bad.append('C15 HISTORY: %s(%s): after earlier evaluations f(%r) = %r (fresh instance %r), f(x*) = %r (fresh instance %r)' % (family, fn, y, vy, ref_y, vo, ref_xo))
 if variant in ('full', 'partial'): call(P, y)
 if variant == 'partial' and len(x) > 1:
     call(S, [y[0]] + x[1:]); call(P, [x[0]] + y[1:])
